@@ -6,12 +6,23 @@
 //
 //   case <n>                          -> "case <n>"    fresh Wiring
 //   reset                             -> "ok"          fresh Wiring (next statement order of the same case)
-//   src <lbl> <kind> <k>              -> "n<i>"        a source node with scalar k; kind:
+//   src <lbl> <kind> <k>              -> "n<i>:<ty>"   a source node with scalar k; kind:
 //        s  TS<Int>            p  TSL<TS<Int>,2>            b  TSB{a: TS<Int>, b: TS<Int>}
 //        e  TS<Int> whose node also has an error output of schema TS<Int> (native builder)
-//   node <lbl> <def> <k> <in>...      -> "n<i>" | "err"     value node, scalar k; defs:
+//   node <lbl> <def> <k> <in>...      -> "n<i>:<ty>" | "err"     value node, scalar k; defs:
 //        f1, g1 (TS<Int>) ; f2, g2 (TS<Int>, TS<Int>) ; t1 (TSL<TS<Int>,2>)
-//   sink <lbl> <def> <k> <in>...      -> "sink" | "err"     output-less node; defs k0 (no input), k1 (TS<Int>), k2 (TS<Int>, TS<Int>)
+//        generic definitions (the RESOLVED type is part of the node's identity):
+//        q:<t>   quote(In<TS<Int>>, Scalar k, Out<TsVar<"O">>) through the typed surface wire<Quote, TS<T>>(...):
+//                the output type variable is bound ONLY by the requested output type <t> = i (Int) | f (Float) | b (Bool)
+//        qn:<t>  the same definition called BY NAME (wire_operator("hgv_in_q", args, true, requested schema)): the
+//                erased surface operator implementations and the Python bridge use; the result port is erased
+//        ec      echo(In<TsVar<"S">>, Scalar k, Out<TsVar<"S">>): the output type follows the input (i / f / b port)
+//                ec and r consume the result of a by-name call as the erased Port<void> it is, every other port typed
+//        gs:<t>  gs(In<TS<Int>>, Scalar<"k", ScalarVar<"T">>, Out<TS<Int>>): the scalar type variable is bound by the type of
+//                the scalar VALUE, <t> = i: Int{k} | f: Float{k}; value a + k (+ 1000 for a Float scalar)
+//        f1 ... t1 and k1, k2 take TS<Int> ports only; a rank-free input (^) on a generic definition is "bad-op"
+//   sink <lbl> <def> <k> <in>...      -> "sink" | "err"     output-less node; defs k0 (no input), k1 (TS<Int>), k2 (TS<Int>, TS<Int>),
+//        r (In<TsVar<"S">>: records the string form of every tick of an i / f / b port under <lbl>, see run)
 //        <in>   = [~][^]<body>        ~ = passive usage (passive(port));  ^ = rank-free input
 //                                     (WiringInputRef.rank_dependency = false)
 //        <body> = <elem> | [<elem>,<elem>]      the bracket form is a structural {x, y} initializer (t1 only, no ~)
@@ -21,15 +32,25 @@
 //   finish                            -> "nodes=<N> edges=<src>[@<p>..][!]><dst>.<slot>[.<j>],..." | "build-err"
 //        node names are the label of the FIRST declaration of the instance; edges sorted as strings.
 //        The wiring is consumed: further declarations need a reset.
+//   run                               -> "<finish line> rec=<lbl>:<v>/<v>..;<lbl>:.." | "build-err" | "run-err"
+//        finish, then ONE simulation run of the built graph (every source ticks its scalar once at start; f = sum of
+//        inputs + k; t1 = k; q:i = 3*a + k + 1, q:f = a + k + 0.5, q:b = (a + k) odd); the recorded stream of every r sink,
+//        sorted by label.  "bad-op" (nothing consumed) when a rank-free input (^) was declared: such a consumer may be
+//        ranked before its producer and what it then sees in the cycle is not a function of the dataflow.
 //   anything else (unknown op/def, arity or type mismatch, unknown or duplicate label, ...) -> "bad-op"
 //
-// n<i> numbers the distinct WiringInstance* of the returned ports in first-seen order within one Wiring.
+// n<i> numbers the distinct WiringInstance* of the returned ports in first-seen order within one Wiring;
+// <ty> is the schema stamped on the returned port: i TS<Int>, f TS<Float>, b TS<Bool>, l TSL<TS<Int>,2>, s the TSB, ? other.
 #include "hgv_common.h"
 
+#include <hgraph/runtime/runtime.h>
 #include <hgraph/types/graph_wiring.h>
+#include <hgraph/types/operator_dispatch.h>
 #include <hgraph/types/static_node.h>
 
 #include <algorithm>
+#include <array>
+#include <cstdlib>
 #include <map>
 #include <memory>
 #include <optional>
@@ -123,6 +144,64 @@ namespace
         static void           eval(In<"a", TS<Int>> a, In<"b", TS<Int>> b, Scalar<"k", Int> k) {}
     };
 
+    // Generic in its OUTPUT only: nothing but the requested output type (wire<Quote, TS<...>>, or the expected output
+    // schema of a by-name call) binds "O".  The value written depends on the resolved type.
+    struct Quote
+    {
+        static constexpr auto name = "hgv_in_q";
+        static void           eval(In<"a", TS<Int>> a, Scalar<"k", Int> k, Out<TsVar<"O">> out)
+        {
+            const auto *schema = static_cast<const TSOutputView &>(out).schema();
+            const auto *vs     = schema != nullptr ? schema->value_schema : nullptr;
+            if (vs == scalar_descriptor<Float>::value_meta())
+            {
+                Value v{Float{static_cast<double>(a.value() + k.value()) + 0.5}};
+                out.apply(v.view());
+            }
+            else if (vs == scalar_descriptor<Bool>::value_meta())
+            {
+                Value v{Bool{((a.value() + k.value()) % 2) != 0}};
+                out.apply(v.view());
+            }
+            else
+            {
+                Value v{Int{a.value() * 3 + k.value() + 1}};
+                out.apply(v.view());
+            }
+        }
+    };
+    // the same definition published as an operator overload: callable by name with a requested output schema
+    struct quote_op : Operator<"hgv_in_q", In<"a", TS<Int>>, Scalar<"k", Int>, Out<TsVar<"O">>>
+    {
+    };
+    // generic in input AND output: the resolved type follows the input
+    struct Echo
+    {
+        static constexpr auto name = "hgv_in_ec";
+        static void           eval(In<"a", TsVar<"S">> a, Scalar<"k", Int> k, Out<TsVar<"S">> out) { out.apply(a.value()); }
+    };
+    // generic in its SCALAR only: gs(a, k : T) -> TS<Int>; the resolved scalar schema is {k: int} or {k: float}
+    struct GScale
+    {
+        static constexpr auto name = "hgv_in_gs";
+        static void           eval(In<"a", TS<Int>> a, Scalar<"k", ScalarVar<"T">> k, Out<TS<Int>> out)
+        {
+            const auto  v = k.value();
+            const Float *f = v.try_as<Float>();
+            out.set(f != nullptr ? a.value() + static_cast<Int>(*f) + 1000 : a.value() + v.checked_as<Int>());
+        }
+    };
+    // recorder: an output-less generic node; `id` is the driver's index of the recorder (its label)
+    std::map<Int, std::vector<std::string>> g_rec;
+    struct Rec
+    {
+        static constexpr auto name = "hgv_in_r";
+        static void           eval(In<"a", TsVar<"S">> a, Scalar<"k", Int> k, Scalar<"id", Int> id)
+        {
+            g_rec[id.value()].push_back(Value{a.value()}.to_string());
+        }
+    };
+
     NodeBuilder error_source_builder()
     {
         const auto      *ts_int = ts_type<TS<Int>>();
@@ -138,12 +217,14 @@ namespace
     }
 
     // ------------------------------------------------------------------ program state
-    enum class Ty { Ts, Tsl, Tsb, TsErr };   // TsErr: a TS<Int> port whose node also has an error output
+    enum class Ty { Ts, Tsl, Tsb, TsErr, TsF, TsB };   // TsErr: a TS<Int> port whose node also has an error output;
+                                                       // TsF / TsB: TS<Float> / TS<Bool> ports (generic definitions)
 
     struct Ent
     {
         Ty            ty;
         WiringPortRef ref;
+        bool          erased{false};   // the result of a by-name call: an erased port, consumed as Port<void> by generic consumers
     };
 
     struct Prog
@@ -152,6 +233,8 @@ namespace
         std::map<std::string, Ent>                  ents;
         std::set<std::string>                       used;
         std::map<const WiringInstance *, std::size_t> seen;
+        std::vector<std::string>                    recs;   // label of recorder <id>
+        bool                                        rank_free{false};   // a rank-free input was declared
     };
 
     Prog fresh()
@@ -181,6 +264,7 @@ namespace
     {
         WiringPortRef ref;
         Ty            ty;   // Ts or Tsl (whole p) or Tsb (whole b)
+        bool          erased{false};
     };
 
     // <lbl> | <lbl>.<0|1> | <lbl>!
@@ -204,7 +288,7 @@ namespace
         }
         auto it = prog.ents.find(s);
         if (it == prog.ents.end()) return std::nullopt;
-        return Elem{it->second.ref, it->second.ty == Ty::TsErr ? Ty::Ts : it->second.ty};
+        return Elem{it->second.ref, it->second.ty == Ty::TsErr ? Ty::Ts : it->second.ty, it->second.erased};
     }
 
     struct Input
@@ -295,17 +379,92 @@ namespace
         w.set_pending_node_label(std::string{X::name}, label);
     }
 
-    std::string number(Prog &prog, const WiringInstance *node)
+    std::string number(Prog &prog, const WiringPortRef &ref)
     {
-        auto it = prog.seen.find(node);
+        const WiringInstance *node = ref.peered_node();
+        auto                  it   = prog.seen.find(node);
         if (it == prog.seen.end()) it = prog.seen.emplace(node, prog.seen.size()).first;
-        return "n" + std::to_string(it->second);
+        const char *ty = "?";
+        if (ref.schema == ts_type<TS<Int>>()) ty = "i";
+        else if (ref.schema == ts_type<TS<Float>>()) ty = "f";
+        else if (ref.schema == ts_type<TS<Bool>>()) ty = "b";
+        else if (ref.schema == ts_type<PairL>()) ty = "l";
+        else if (ref.schema == ts_type<PairB>()) ty = "s";
+        return "n" + std::to_string(it->second) + ":" + ty;
+    }
+
+    bool scalar_ts(Ty ty) { return ty == Ty::Ts || ty == Ty::TsF || ty == Ty::TsB; }
+
+    // the requested output type of a q:<t> / qn:<t> definition
+    std::optional<Ty> requested(const std::string &def, const std::string &prefix)
+    {
+        if (def.size() != prefix.size() + 1 || def.compare(0, prefix.size(), prefix) != 0) return std::nullopt;
+        switch (def.back())
+        {
+            case 'i': return Ty::Ts;
+            case 'f': return Ty::TsF;
+            case 'b': return Ty::TsB;
+            default: return std::nullopt;
+        }
+    }
+
+    const TSValueTypeMetaData *meta_of(Ty ty)
+    {
+        return ty == Ty::TsF ? ts_type<TS<Float>>() : ty == Ty::TsB ? ts_type<TS<Bool>>() : ts_type<TS<Int>>();
+    }
+
+    WiringPortRef usage(const Input &in)
+    {
+        return in.passive ? in.elems[0].ref.with_arg_tag(WiringPortRef::ArgTag::Passive) : in.elems[0].ref;
+    }
+
+    WiringArg ts_arg(WiringPortRef ref)
+    {
+        WiringArg arg;
+        arg.kind = WiringArg::Kind::TimeSeries;
+        arg.port = std::move(ref);
+        return arg;
+    }
+
+    WiringArg int_arg(Int k)
+    {
+        WiringArg arg;
+        arg.kind         = WiringArg::Kind::Scalar;
+        arg.scalar_value = Value{k};
+        arg.scalar_meta  = scalar_descriptor<Int>::value_meta();
+        return arg;
+    }
+
+    // the typed surface for a generic input: Port<TS<T>> of the port's own type
+    template <typename X, typename... Scalars>
+    auto wire_by_type(Wiring &w, const Input &in, Scalars... scalars)
+    {
+        if (in.elems[0].erased)
+        {
+            // an erased port stays erased: the generic consumer resolves against the schema the port carries
+            return wire<X>(w, Port<void>{w, usage(in)}, scalars...);
+        }
+        switch (in.elems[0].ty)
+        {
+            case Ty::TsF:
+            {
+                Port<TS<Float>> port{w, in.elems[0].ref};
+                return wire<X>(w, in.passive ? passive(port) : port, scalars...);
+            }
+            case Ty::TsB:
+            {
+                Port<TS<Bool>> port{w, in.elems[0].ref};
+                return wire<X>(w, in.passive ? passive(port) : port, scalars...);
+            }
+            default: return wire<X>(w, ts_port(w, in), scalars...);
+        }
     }
 }  // namespace
 
 int main()
 {
     std::ios::sync_with_stdio(false);
+    register_overload<quote_op, Quote>();
     Prog        prog = fresh();
     std::string line;
     while (std::getline(std::cin, line))
@@ -363,7 +522,7 @@ int main()
                 w.clear_pending_node_label();
                 prog.used.insert(lbl);
                 prog.ents.emplace(lbl, ent);
-                std::cout << number(prog, ent.ref.peered_node()) << "\n";
+                std::cout << number(prog, ent.ref) << "\n";
             }
             else if ((op == "node" || op == "sink") && tok.size() >= 4)
             {
@@ -373,7 +532,14 @@ int main()
                 const auto         k    = to_nat(tok[3]);
                 std::size_t        arity = 0;
                 bool               wants_tsl = false;
-                if (!sink && (def == "f1" || def == "g1")) arity = 1;
+                const auto         q_typed   = sink ? std::nullopt : requested(def, "q:");
+                const auto         q_by_name = sink ? std::nullopt : requested(def, "qn:");
+                const auto         gs_typed  = sink ? std::nullopt : requested(def, "gs:");
+                if (gs_typed && *gs_typed == Ty::TsB) { std::cout << "bad-op\n"; continue; }
+                const bool         generic   = q_typed || q_by_name || gs_typed || (!sink && def == "ec") || (sink && def == "r");
+                const bool         any_ts    = (!sink && def == "ec") || (sink && def == "r");
+                if (generic) arity = 1;
+                else if (!sink && (def == "f1" || def == "g1")) arity = 1;
                 else if (!sink && (def == "f2" || def == "g2")) arity = 2;
                 else if (!sink && def == "t1") { arity = 1; wants_tsl = true; }
                 else if (sink && def == "k1") arity = 1;
@@ -392,8 +558,9 @@ int main()
                     auto in = parse_input(prog, tok[4 + i]);
                     if (!in) { bad = true; break; }
                     if (wants_tsl ? !(in->structural || in->elems[0].ty == Ty::Tsl)
-                                  : (in->structural || in->elems[0].ty != Ty::Ts))
+                                  : (in->structural || (any_ts ? !scalar_ts(in->elems[0].ty) : in->elems[0].ty != Ty::Ts)))
                         bad = true;
+                    if (generic && in->rank_free) bad = true;
                     rank_free = rank_free || in->rank_free;
                     ins.push_back(std::move(*in));
                 }
@@ -405,7 +572,45 @@ int main()
                     ~Clear() { w.clear_pending_node_label(); }
                 } clear{w};
                 const Int kv{*k};
-                if (rank_free)
+                Ty        out_ty = Ty::Ts;
+                if (q_typed)
+                {
+                    name_next<Quote>(w, lbl);
+                    out_ty = *q_typed;
+                    switch (out_ty)
+                    {
+                        case Ty::TsF: out = wire<Quote, TS<Float>>(w, ts_port(w, ins[0]), kv).erased(); break;
+                        case Ty::TsB: out = wire<Quote, TS<Bool>>(w, ts_port(w, ins[0]), kv).erased(); break;
+                        default: out = wire<Quote, TS<Int>>(w, ts_port(w, ins[0]), kv).erased(); break;
+                    }
+                }
+                else if (q_by_name)
+                {
+                    name_next<Quote>(w, lbl);
+                    out_ty = *q_by_name;
+                    std::array<WiringArg, 2> args{ts_arg(usage(ins[0])), int_arg(kv)};
+                    out = wire_operator(w, "hgv_in_q", std::span<const WiringArg>{args.data(), args.size()}, true, meta_of(out_ty))
+                              .output.erased();
+                }
+                else if (gs_typed)
+                {
+                    name_next<GScale>(w, lbl);
+                    out = *gs_typed == Ty::TsF ? wire<GScale>(w, ts_port(w, ins[0]), Float{static_cast<double>(kv)}).erased()
+                                               : wire<GScale>(w, ts_port(w, ins[0]), kv).erased();
+                }
+                else if (def == "ec" && !sink)
+                {
+                    name_next<Echo>(w, lbl);
+                    out_ty = ins[0].elems[0].ty;
+                    out    = wire_by_type<Echo>(w, ins[0], kv).erased();
+                }
+                else if (def == "r" && sink)
+                {
+                    name_next<Rec>(w, lbl);
+                    wire_by_type<Rec>(w, ins[0], kv, Int{static_cast<Int>(prog.recs.size())});
+                    prog.recs.push_back(lbl);
+                }
+                else if (rank_free)
                 {
                     if (def == "f1") out = add_explicit<F1>(w, ins, kv, lbl);
                     else if (def == "g1") out = add_explicit<G1>(w, ins, kv, lbl);
@@ -445,15 +650,20 @@ int main()
                 else if (def == "k1") { name_next<K1>(w, lbl); wire<K1>(w, ts_port(w, ins[0]), kv); }
                 else { name_next<K2>(w, lbl); wire<K2>(w, ts_port(w, ins[0]), ts_port(w, ins[1]), kv); }
                 prog.used.insert(lbl);
+                prog.rank_free = prog.rank_free || rank_free;
                 if (sink) { std::cout << "sink\n"; }
                 else
                 {
-                    prog.ents.emplace(lbl, Ent{Ty::Ts, *out});
-                    std::cout << number(prog, out->peered_node()) << "\n";
+                    prog.ents.emplace(lbl, Ent{out_ty, *out, q_by_name.has_value()});
+                    std::cout << number(prog, *out) << "\n";
                 }
             }
-            else if (op == "finish" && tok.size() == 1)
+            else if ((op == "finish" || op == "run") && tok.size() == 1)
             {
+                const bool run = op == "run";
+                // a rank-free edge lets the consumer be ranked BEFORE its producer: what it sees in the cycle is not a
+                // function of the dataflow, so such programs are only built, not run
+                if (run && prog.rank_free) { std::cout << "bad-op\n"; continue; }
                 if (!prog.w) { std::cout << "bad-op\n"; continue; }
                 std::unique_ptr<Wiring> consumed = std::move(prog.w);
                 prog.ents.clear();
@@ -481,9 +691,43 @@ int main()
                     std::ostringstream os;
                     os << "nodes=" << names.size() << " edges=";
                     for (std::size_t i = 0; i < edges.size(); ++i) os << (i ? "," : "") << edges[i];
+                    if (run)
+                    {
+                        g_rec.clear();
+                        try
+                        {
+                            GraphExecutorBuilder eb;
+                            eb.graph_builder(std::move(graph)).mode(GraphExecutorMode::Simulation).start_time(MIN_ST).end_time(MAX_ET);
+                            GraphExecutorValue executor = eb.make_executor();
+                            executor.view().run();
+                        }
+                        catch (const std::exception &e)
+                        {
+                            if (std::getenv("HGV_VERBOSE")) std::cerr << "run-err: " << e.what() << "\n";
+                            std::cout << "run-err\n";
+                            prog.recs.clear();
+                            continue;
+                        }
+                        std::vector<std::string> recs;
+                        for (std::size_t id = 0; id < prog.recs.size(); ++id)
+                        {
+                            std::string r = prog.recs[id] + ":";
+                            const auto &vals = g_rec[static_cast<Int>(id)];
+                            for (std::size_t i = 0; i < vals.size(); ++i) r += (i ? "/" : "") + vals[i];
+                            recs.push_back(std::move(r));
+                        }
+                        std::sort(recs.begin(), recs.end());
+                        os << " rec=";
+                        for (std::size_t i = 0; i < recs.size(); ++i) os << (i ? ";" : "") << recs[i];
+                        prog.recs.clear();
+                    }
                     std::cout << os.str() << "\n";
                 }
-                catch (const std::exception &) { std::cout << "build-err\n"; }
+                catch (const std::exception &e)
+                {
+                    if (std::getenv("HGV_VERBOSE")) std::cerr << "build-err: " << e.what() << "\n";
+                    std::cout << "build-err\n";
+                }
             }
             else { std::cout << "bad-op\n"; }
         }
